@@ -100,9 +100,7 @@ pub const TEMPLATES: &[&str] = &[
     "err-file-attribute-without-module",
     "err-base-not-an-interface",
     "err-underlying-not-a-primitive",
-    // Known finding (C07): a cycle that the compiler does not diagnose but dies of (stack overflow). Never drawn at
-    // random (no clean/warn/err prefix); C07 runs it first thing on every run.
-    "abort-cycle-interface",
+    "err-cycle-interface-inheritance",
 ];
 
 /// The templates that are drawn at random (everything except the recorded findings).
@@ -381,9 +379,16 @@ pub fn instantiate(template: &'static str, rng: &mut Rng) -> Program {
             p.class = Class::Error;
             p.codes = vec!["E017"];
         }
-        "abort-cycle-interface" => {
-            p.files.push(f("ci.slice", format!("module Ci{u}\ninterface I : J {{}}\ninterface J : I {{}}\n")));
+        "err-cycle-interface-inheritance" => {
+            // (the pinned tree died of a stack overflow here: fixed)
+            let text = match rng.below(3) {
+                0 => format!("module Ci{u}\ninterface I : J {{}}\ninterface J : I {{}}\n"),
+                1 => format!("module Ci{u}\ninterface I : I {{ op() }}\n"),
+                _ => format!("module Ci{u}\ninterface A : B {{}}\ninterface B : C, D {{}}\ninterface C : B {{}}\ninterface D {{}}\n"),
+            };
+            p.files.push(f("ci.slice", format!("{text}\n{}", filler(rng, "Ci", fill))));
             p.class = Class::Error;
+            p.codes = vec!["E032"];
         }
         "err-wide-text" => {
             let lead = *rng.pick(&["这个结构已经被弃用了，请改用", "élément dépréciée à côté →", "😀😀😀 см. также"]);
